@@ -734,6 +734,15 @@ def _post_results(mon, fs, job):
 POST["results"] = _post_results
 
 
+def _post_saved_results(mon, fs, job):
+    from . import post_saved
+
+    post_saved.saved_results(mon, fs, job)
+
+
+POST["saved_results"] = _post_saved_results
+
+
 # --------------------------------------------------------------------------
 # Monitor "ns_stop": stopping rule of the standard sampler (C15)
 def install_ns_stop(mon):
@@ -1355,3 +1364,42 @@ def _post_accounting(mon, fs, job):
 
 INSTALLERS["ckpt"] = install_ckpt
 POST["accounting"] = _post_accounting
+
+
+# --------------------------------------------------------------------------
+# Monitor "draws": bound on the latent draws of one pool population (C20)
+def install_draws(mon):
+    from nessai.proposal.flowproposal import FlowProposal
+
+    limit = int(mon.job.get("draw_batches_limit", 10000))
+    st = {"batches": 0, "max": 0, "populations": 0}
+    mon.data["draws"] = st
+
+    def before_populate(self, *a, **k):
+        st["batches"] = 0
+        st["populations"] += 1
+
+    def after_populate(self, _t, _r):
+        st["max"] = max(st["max"], st["batches"])
+
+    def before_draw(self, n):
+        st["batches"] += 1
+        if st["batches"] > limit:
+            st["max"] = st["batches"]
+            mon.flags["population_draw_bound"] = True
+            lt = (getattr(self, "flow_config", None) or {}).get(
+                "linear_transform")
+            mon.data["draw_bound"] = {
+                "proposal": type(self).__name__ + (
+                    f":linear_transform={lt}" if lt else ""),
+                "batches": st["batches"], "drawsize": int(self.drawsize)}
+            mon.flush()
+            os._exit(21)
+
+    wrap(FlowProposal, "populate", before_populate, after_populate)
+    wrap(FlowProposal, "draw_latent_prior", before_draw, None)
+    # subclasses that override populate/draw_latent_prior keep their own
+    # methods; the bound is then enforced by the wall-clock backstop only
+
+
+INSTALLERS["draws"] = install_draws
